@@ -3,11 +3,11 @@
    Values are the *encoded* output units: bytes 0..255 for 8-bit output and
    words 0..65535 for 16-bit output (what lands in the caller's buffer). *)
 From Coq Require Import ZArith Lia Bool.
-From LX Require Import Base.IntWrap.
+From LX Require Import Base.IntWrap Generated.Consts.
 Local Open Scope Z_scope.
 
 Definition DOWNMIX_SHIFT := 12.
-Definition XMP_MAX_FRAMESIZE := 24585.   (* 5 * XMP_MAX_SRATE / XMP_MIN_BPM, checked against include/xmp.h by the tie *)
+Definition XMP_MAX_FRAMESIZE := C_XMP_MAX_FRAMESIZE.   (* 24585 = 5 * XMP_MAX_SRATE * 2 / XMP_MIN_BPM; re-extracted from include/xmp.h on every run *)
 
 (* pre-clipping value: smp = *src >> shift *)
 Definition pre16 (amp x : Z) : Z := Z.shiftr x (DOWNMIX_SHIFT - amp).
